@@ -23,7 +23,8 @@ type Node struct {
 	Tag    string            `json:"tag"`
 	Text   string            `json:"text,omitempty"`
 	Disp   string            `json:"disp,omitempty"`  // specified display; "" = UA default for the tag
-	Float  string            `json:"float,omitempty"` // "", left, right
+	Float  string            `json:"float,omitempty"` // "", left, right, footnote (css-gcpm-3 §2)
+	FD     string            `json:"fd,omitempty"`    // footnote-display: "", block, inline, compact
 	Pos    string            `json:"pos,omitempty"`   // "", relative, absolute, fixed
 	LSP    string            `json:"lsp,omitempty"`   // list-style-position: "", inside, outside
 	Cap    string            `json:"cap,omitempty"`   // caption-side: "", top, bottom (inherited)
@@ -89,6 +90,9 @@ func renderHTML(root *Node) string {
 		}
 		if n.Float != "" {
 			d = append(d, "float:"+n.Float)
+		}
+		if n.FD != "" {
+			d = append(d, "footnote-display:"+n.FD)
 		}
 		if n.Pos != "" {
 			d = append(d, "position:"+n.Pos)
